@@ -164,6 +164,7 @@ def applyEv (env : Env) (s : Sys) (ev : List String) : Option Sys :=
   | ["rqe", k] => k.toNat?.bind fun k => step s (.h k .reqmodEnd)
   | ["rts", k] => k.toNat?.bind fun k => step s (.h k .rtStart)
   | ["rte", k, rc] => k.toNat?.bind fun k => (bit rc).bind fun rc => step s (.h k (.rtEnd rc))
+  | ["rtf", k] => k.toNat?.bind fun k => step s (.h k .rtFail)
   | ["rms", k] => k.toNat?.bind fun k =>
       -- MITM: the 200 of a CONNECT is synthesised right after the request modifier
       let s := if pcOf s k = some .postReqmod then tryStep s (.h k .mitmAccept) else s
